@@ -48,6 +48,21 @@ CLAIMED = {
  "C20": dict(cat="exploration", tech="runtime monitoring: metamorphic monitor (canonical rendering vs hostile re-renderings of the same token sequence / AST: code, constants, results, diagnostic classes)",
    text="Each program is rendered canonically and 6-10 hostile ways (all separator kinds incl. none where legal, comments with arbitrary bytes ended by CR/LF/EOF, optional ';' toggled, redundant parentheses anywhere); instructions, constants, output, blocks, binding, error and diagnostic classes must be identical; string literals full of layout characters must reach the value byte for byte.",
    note="Whole-input parsing; the separator-needed predicate is derived from the token definitions, conservatively.", ref="§6 C20"),
+ "C05": dict(cat="exploration", tech="runtime monitoring: round-trip monitor (harness-owned writer and matching rule; reflect.StructOf-generated and named struct types; bit-exact deep equality)",
+   text="Generated struct types (1-12 fields, nesting to 4, tags, Name anywhere or absent, named and anonymous) with extreme and escape-heavy values are written as BCL under every admitted key spelling and shuffled order, unmarshalled through struct binding with every selector and slice binding into a junk-filled slice, and compared bit-exactly with the written value.",
+   note="Ambiguous field-name sets are not generated. Trusted: the matching rule of DESIGN §6 C05.", ref="§6 C05"),
+ "C15": dict(cat="exploration", tech="runtime monitoring: crash monitor + post-condition monitor (after nil: every block field found unchanged in the field the harness's own matching rule designates; after error: slice target equals its snapshot)",
+   text="Generated bindings (nil, struct, slice; nil values, nested blocks, colliding keys, named children) crossed with derived, mutated (24 field kinds), wrong-kind, zoo (embedded/unexported/pointer/interface fields) and 28 hostile non-struct targets: Bind must not panic, may return nil only if everything was stored unchanged with its dynamic type, and must leave a slice target untouched on error.",
+   note="When two keys designate one struct field only 'no panic' is claimed.", ref="§6 C15"),
+ "C16": dict(cat="exploration", tech="runtime monitoring: repetition monitor (R in-process repetitions + fresh processes with GOMAXPROCS 1/2/16 + history variants A,B,A and mutated results), digest of everything observable",
+   text="Cases chosen for order sensitivity (colliding keys, several named children into one field, several faulty fields, many constants, several diagnostics) and generated programs are run 30/200 times in one process and in fresh processes with different GOMAXPROCS and hash seeds; the digest (dump hash, diagnostics, output, blocks, binding, targets, error texts) must be identical; a Prog must dump the same before and after Execute and be unaffected by mutation of earlier results.",
+   note="Go randomises map iteration per range statement, so in-process repetition exercises iteration order; schedules and seeds are sampled.", ref="§6 C16"),
+ "C18": dict(cat="exploration", tech="runtime monitoring: process monitor on the built cmd/bcl (stdout/stderr/exit of child processes vs the library in-process, across equivalent argument vectors; documented exit statuses; bdump/bload reproduction)",
+   text="For fixed and generated programs (succeeding, rejected, failing at run time) every subset of the four flags is spelled short/long/mixed/clustered/split with the file in every position, as '-' and omitted; stdout, stderr and exit status must equal the library's in-process result; 23 usage and I/O error cases must give status 2 / 1; --bdump must not change the outcome and --bload must reproduce it.",
+   note="Every child has an explicit stdin and a watchdog; the binary is rebuilt from /repo on every run.", ref="§6 C18"),
+ "C19": dict(cat="exploration", tech="runtime monitoring: metamorphic monitor (all 8 option combinations vs none, three routes) + VM hook ground truth for trace and independent decoder for disassembly",
+   text="Accepted, rejected and runtime-failing programs run under all 8 combinations of disasm/trace/stats through Parse+Execute, Interpret and LoadProg+Execute: results, error, log and program output lines must not change and nothing may panic; the disassembly must list exactly the instruction boundaries, the trace exactly the executed pc sequence, as many as opsRead.",
+   note="Programs whose own output looks like introspection text count for the result comparison only.", ref="§6 C19"),
 }
 
 NOT_YET = {}
